@@ -86,6 +86,48 @@ pub fn print_line(args: std::fmt::Arguments<'_>) {
     }
 }
 
+fn stderr_broken() -> bool {
+    crate::machine::installed() && crate::machine::with(|m| m.stderr_broken)
+}
+
+/// `eprintln!` of code compiled into a harness: the text is formatted and
+/// dropped; when the simulated machine says that stderr cannot be written it
+/// panics, as std's `eprintln!` does.
+pub fn eprint_line(args: std::fmt::Arguments<'_>) {
+    let _ = std::fmt::format(args);
+    if stderr_broken() {
+        crate::machine::with(|m| m.stat("stderr_write_failed"));
+        panic!("failed printing to stderr: No space left on device (os error 28)");
+    }
+}
+
+/// `std::io::stderr()` of code compiled into a harness.
+pub struct Stderr;
+
+pub fn stderr() -> Stderr {
+    Stderr
+}
+
+impl Stderr {
+    pub fn lock(&self) -> Stderr {
+        Stderr
+    }
+}
+
+impl Write for Stderr {
+    fn write(&mut self, buf: &[u8]) -> io::Result<usize> {
+        if stderr_broken() {
+            crate::machine::with(|m| m.stat("stderr_write_failed"));
+            Err(io::Error::from_raw_os_error(28))
+        } else {
+            Ok(buf.len())
+        }
+    }
+    fn flush(&mut self) -> io::Result<()> {
+        Ok(())
+    }
+}
+
 pub struct Stdin {
     inner: Arc<Mutex<BufReader<PipeEnd>>>,
 }
